@@ -214,11 +214,16 @@ fn site_mode(src: &Path) -> String {
 /// scrutinee is lower-cased.
 pub fn string_table(block: &Block) -> (Vec<(String, String)>, bool) {
     // find the match expression
+    // `match s { .. }` as the value of the function, or `let x = match s { .. , _ => return None }; Some(x)`
     let m = block
         .stmts
         .iter()
         .filter_map(|s| match s {
             Stmt::Expr(Expr::Match(m), _) => Some(m),
+            Stmt::Local(l) => match l.init.as_ref().map(|i| &*i.expr) {
+                Some(Expr::Match(m)) => Some(m),
+                _ => None,
+            },
             _ => None,
         })
         .last()
@@ -400,10 +405,25 @@ fn emit_members(o: &mut String, items: &[Item], ty: &str, prefix: &str, preds: &
     }
     for (p, vars, calls) in &done {
         let mut all: Vec<String> = vars.clone();
-        for c in calls {
-            let other = done.iter().find(|d| &d.0 == c).unwrap_or_else(|| panic!("{} calls unknown predicate {}", p, c));
-            all.extend(other.1.clone());
+        // predicates called on `self`: one of the listed ones, or a private helper of the same impl (taken in transitively)
+        let mut todo: Vec<String> = calls.clone();
+        let mut seen: Vec<String> = vec![p.clone()];
+        while !todo.is_empty() {
+            let c = todo.remove(0);
+            if seen.contains(&c) { continue; }
+            seen.push(c.clone());
+            if let Some(other) = done.iter().find(|d| d.0 == c) {
+                all.extend(other.1.clone());
+                todo.extend(other.2.clone());
+            } else {
+                let g = find_impl_fn(items, ty, &c).unwrap_or_else(|| panic!("{} calls unknown predicate {}", p, c));
+                let mut mc = MemberCollector { variants: vec![], calls: vec![], enum_name: ty.to_string() };
+                mc.visit_block(&g.block);
+                all.extend(mc.variants);
+                todo.extend(mc.calls);
+            }
         }
+        if all.is_empty() { panic!("{}::{}: no member found (a form of the predicate the translator does not read)", ty, p); }
         writeln!(o, "Definition {}_{}_list : list {} := [{}].", ty, p, ty,
             all.iter().map(|v| format!("{}{}", prefix, v)).collect::<Vec<_>>().join("; ")).unwrap();
         writeln!(o, "Definition {}_{} (x : {}) : bool := existsb ({}_eqb x) {}_{}_list.", ty, p, ty, ty, ty, p).unwrap();
@@ -967,7 +987,27 @@ fn site_cmp(src: &Path) -> String {
     let f = find_impl_fn(&file.items, "Searcher", "conforms").expect("Searcher::conforms");
     let mut o = String::from(HDR_N);
     o.push_str("From FS Require Import gen.OpsGen.\nOpen Scope Z_scope.\n(* from src/searcher.rs, fn conforms: the typed comparison tables *)\n");
-    let tm = find_match_on(&f.block, "field_value.get_type()").expect("match field_value.get_type()");
+    // the match on the type of the left-hand value; the two values are named by their role, whatever they are called
+    let tm = find_match_on(&f.block, ".get_type()").expect("conforms: match <left value>.get_type()");
+    let lname = match &*tm.expr {
+        Expr::MethodCall(m) => qs(&m.receiver).replace(' ', ""),
+        e => panic!("conforms: scrutinee {}", qs(e)),
+    };
+    // the right-hand value: the other name a conversion is called on in the Int arm
+    let mut rname = None;
+    for arm in &tm.arms {
+        if pat_path_last(&arm.pat).unwrap_or_default() == "Int" {
+            let txt = qs(&arm.body).replace(' ', "");
+            let mut rest = txt.as_str();
+            while let Some(i) = rest.find(".to_int()") {
+                let head = &rest[..i];
+                let id: String = head.chars().rev().take_while(|c| c.is_alphanumeric() || *c == '_').collect::<String>().chars().rev().collect();
+                if !id.is_empty() && id != lname { rname = Some(id); }
+                rest = &rest[i + 9..];
+            }
+        }
+    }
+    let rname = rname.expect("conforms: the right-hand value of the Int arm");
     for arm in &tm.arms {
         let ty = pat_path_last(&arm.pat).unwrap_or_default();
         if !["Int", "Float", "Bool", "DateTime"].contains(&ty.as_str()) {
@@ -978,31 +1018,47 @@ fn site_cmp(src: &Path) -> String {
             e => panic!("conforms arm {} is not a block: {}", ty, qs(e)),
         };
         // roles of the let-bound names
-        let mut env = Env::new("Z").with("field_value.to_bool()", "x").with("value.to_bool()", "y");
-        let mut nvalue = 0;
+        let mut env = Env::new("Z").with(&format!("{}.to_bool()", lname), "x").with(&format!("{}.to_bool()", rname), "y");
         for st in &block.stmts {
             if let Stmt::Local(l) = st {
                 let init = l.init.as_ref().map(|i| qs(&i.expr).replace(' ', "")).unwrap_or_default();
                 let mut ids = vec![];
                 pat_idents(&l.pat, &mut ids);
-                if init.contains("field_value") {
+                if init.contains(&lname) {
                     for id in &ids { env.vars.insert(id.clone(), "x".to_string()); }
-                } else if init.starts_with("value.") {
+                } else if init.starts_with(&format!("{}.", rname)) {
                     // literal side: one name -> y, a pair -> (a, b)
                     if ids.len() == 1 { env.vars.insert(ids[0].clone(), "y".to_string()); }
                     else if ids.len() == 2 { env.vars.insert(ids[0].clone(), "a".to_string()); env.vars.insert(ids[1].clone(), "b".to_string()); }
                     else { panic!("conforms {}: let pattern", ty); }
-                    nvalue += 1;
                 } else {
-                    // re-binding such as `let start = start.and_utc().timestamp();` keeps the role
-                    for id in &ids {
-                        if !init.starts_with(&format!("{}.", id)) { panic!("conforms {}: unexpected binding {} = {}", ty, id, init); }
-                    }
+                    // re-binding such as `let start = start.and_utc().timestamp();` / `let start_ts = range_start.and_utc().timestamp();` keeps the role
+                    let src_id: String = init.chars().take_while(|c| c.is_alphanumeric() || *c == '_').collect();
+                    let role = env.vars.get(&src_id).cloned().unwrap_or_else(|| panic!("conforms {}: unexpected binding {:?} = {}", ty, ids, init));
+                    if !init[src_id.len()..].starts_with('.') { panic!("conforms {}: unexpected binding {:?} = {}", ty, ids, init); }
+                    for id in &ids { env.vars.insert(id.clone(), role.clone()); }
                 }
             }
         }
-        let _ = nvalue;
-        let om = find_match_on(block, "op").expect("match op");
+        // the operator table: `match op { .. }` in the arm, or a private helper `fn h(op, left, right) -> bool { match op { .. } }`
+        // called as the arm's value (inlined with its two operands)
+        let (om, env) = match find_match_on(block, "op") {
+            Some(m) => (m.clone(), env),
+            None => {
+                let tail = match block.stmts.last() { Some(Stmt::Expr(e, None)) => e, _ => panic!("conforms {}: arm value", ty) };
+                let call = match tail { Expr::Call(c) => c, e => panic!("conforms {}: arm value {}", ty, qs(e)) };
+                let hname = match &*call.func { Expr::Path(p) => last_seg(&p.path), e => panic!("conforms {}: call {}", ty, qs(e)) };
+                let h = find_impl_fn(&file.items, "Searcher", &hname).unwrap_or_else(|| panic!("conforms {}: helper {} not found", ty, hname));
+                let pn: Vec<String> = h.sig.inputs.iter().filter_map(|a| if let FnArg::Typed(pt) = a { pat_path_last(&pt.pat) } else { None }).collect();
+                if pn.len() != 3 || call.args.len() != 3 || qs(&call.args[0]).replace(' ', "").trim_start_matches('&') != "op" { panic!("conforms {}: helper call {}", ty, qs(call)); }
+                let hm = find_match_on(&h.block, &pn[0]).unwrap_or_else(|| panic!("conforms {}: helper {} has no match on its operator", ty, hname));
+                if block_value(&h.block).map(|e| qs(e)) != Some(qs(hm)) { panic!("conforms {}: helper {} is more than one match", ty, hname); }
+                let mut inner = Env::new("Z");
+                inner.vars.insert(pn[1].clone(), ex(&call.args[1], &env));
+                inner.vars.insert(pn[2].clone(), ex(&call.args[2], &env));
+                (hm.clone(), inner)
+            }
+        };
         let mut arms = vec![];
         for a in &om.arms {
             let body = ex(&a.body, &env);
@@ -1209,6 +1265,21 @@ impl<'a> syn::visit::Visit<'a> for WriteSites {
         }
         syn::visit::visit_expr_if(self, i);
     }
+    fn visit_expr_match(&mut self, m: &'a ExprMatch) {
+        // match write!(stdout(), ..) { Err(e) if e.kind() == BrokenPipe => return .., _ => {} }
+        if mentions_stdout(&m.expr) {
+            let txt = qs(m).replace(' ', "");
+            if txt.contains("BrokenPipe") || self.bp_helpers.iter().any(|h| txt.contains(&format!("{}(", h))) {
+                self.guarded += 1;
+            } else {
+                self.unhandled += 1;
+                self.detail.push(format!("match on a write without BrokenPipe test: {}", qs(&m.expr).chars().take(80).collect::<String>()));
+            }
+            for a in &m.arms { syn::visit::visit_expr(self, &a.body); }
+            return;
+        }
+        syn::visit::visit_expr_match(self, m);
+    }
     fn visit_local(&mut self, l: &'a Local) {
         if let Some(init) = &l.init {
             if mentions_stdout(&init.expr) && qs(&l.pat) == "_" {
@@ -1365,7 +1436,9 @@ fn site_ext(src: &Path) -> String {
     };
     // for ext in extensions { if s.ends_with(ext) { return true; } }
     let test_of = |m: &ExprMethodCall, x: &str| -> String {
-        if !(qs(&m.receiver) == svar && m.args.len() == 1 && qs(&m.args[0]) == x) { panic!("has_extension: test `{}`", qs(m)); }
+        let arg = if m.args.len() == 1 { qs(&m.args[0]).replace(' ', "") } else { String::new() };
+        let arg_ok = arg == x || arg == format!("{}.as_str()", x) || arg == format!("&{}", x) || arg == format!("&**{}", x) || arg == format!("{}.as_ref()", x);
+        if !(qs(&m.receiver) == svar && arg_ok) { panic!("has_extension: test `{}`", qs(m)); }
         match m.method.to_string().as_str() {
             "ends_with" => format!("(fun {} : str => ends_with {} {})", x, x, lowered),
             "starts_with" => format!("(fun {} : str => starts_with {} {})", x, x, lowered),
